@@ -318,35 +318,47 @@ func RunCase[C any](t *testing.T, sub string, c C, run func(C) Result) bool {
 	return true
 }
 
-// Replay re-runs the case stored in $VERIF_REPLAY without the property library.
+// Replay re-runs the case(s) stored in $VERIF_REPLAY (a file, or a directory of
+// files = the regression corpus) without the property library.
 func Replay[C any](t *testing.T, subs map[string]func(C) Result) {
 	path := os.Getenv("VERIF_REPLAY")
 	if path == "" {
 		t.Skip("VERIF_REPLAY not set")
 	}
-	b, err := os.ReadFile(path)
-	if err != nil {
-		t.Fatalf("replay: %v", err)
+	files := []string{path}
+	if fi, err := os.Stat(path); err == nil && fi.IsDir() {
+		files, _ = filepath.Glob(filepath.Join(path, "*.json"))
+		sort.Strings(files)
 	}
-	var rf replayFile
-	if err := json.Unmarshal(b, &rf); err != nil {
-		t.Fatalf("replay: %v", err)
+	for _, f := range files {
+		b, err := os.ReadFile(f)
+		if err != nil {
+			t.Fatalf("replay: %v", err)
+		}
+		var rf replayFile
+		if err := json.Unmarshal(b, &rf); err != nil {
+			t.Fatalf("replay %s: %v", f, err)
+		}
+		run, ok := subs[rf.Sub]
+		if !ok {
+			continue // belongs to another sub-check (case type)
+		}
+		var c C
+		if err := json.Unmarshal(rf.Case, &c); err != nil {
+			t.Fatalf("replay %s: case does not decode: %v", f, err)
+		}
+		res := run(c)
+		if tolerate(rf.Sub, res) {
+			continue
+		}
+		if res.Violation != "" {
+			fmt.Printf("VERIF-VIOLATION property=%s sub=%s sig=%s replay=%s\n", S.ID, rf.Sub, res.Sig, f)
+			fmt.Printf("VERIF-DETAIL %s\n", strings.ReplaceAll(res.Violation, "\n", " | "))
+			t.Errorf("[%s] %s", res.Sig, res.Violation)
+			continue
+		}
+		fmt.Printf("VERIF-REPLAY-OK property=%s sub=%s file=%s\n", S.ID, rf.Sub, filepath.Base(f))
 	}
-	run, ok := subs[rf.Sub]
-	if !ok {
-		t.Skipf("replay file is for sub-check %q", rf.Sub)
-	}
-	var c C
-	if err := json.Unmarshal(rf.Case, &c); err != nil {
-		t.Fatalf("replay: case does not decode: %v", err)
-	}
-	res := run(c)
-	if res.Violation != "" {
-		fmt.Printf("VERIF-VIOLATION property=%s sub=%s sig=%s replay=%s\n", S.ID, rf.Sub, res.Sig, path)
-		fmt.Printf("VERIF-DETAIL %s\n", strings.ReplaceAll(res.Violation, "\n", " | "))
-		t.Fatalf("[%s] %s", res.Sig, res.Violation)
-	}
-	fmt.Printf("VERIF-REPLAY-OK property=%s sub=%s\n", S.ID, rf.Sub)
 }
 
 // ReplaySub returns the sub-check name stored in $VERIF_REPLAY ("" if unset).
